@@ -33,7 +33,7 @@ META = {
                   "acceptance threshold 1-eps^2/2 round to 1.0: the grid search then always exhausts max_search_trials and returns its 1e-3 "
                   "warm-start fallback – documented as 'error could be >= epsilon', recorded as budget_limited, not as a violation.",
     "shards": {"quick": 3, "thorough": 16},
-    "budget_s": {"quick": 100, "thorough": 480},
+    "budget_s": {"quick": 100, "thorough": 300},
     "min_evals": {"quick": 400, "thorough": 8000},
     "min_nontrivial": {"quick": 100, "thorough": 2000},
     "deciding": ["rs.bound", "rs.gateset", "sk.bound", "sk.gateset", "ct.gate", "ct.circuit"],
@@ -269,7 +269,8 @@ def run(ctx):
             status, d, ops = rs_classify(op, eps, kw, tgt)
         except Exception as e:  # noqa: BLE001
             ctx.ev("rs.bound")
-            viol("rs.bound", f"rs_decomposition raised {type(e).__name__}: {str(e)[:200]}", info, f"rs:raises:{type(e).__name__}")
+            viol("rs.bound", f"rs_decomposition raised {type(e).__name__}: {str(e)[:200]}", info,
+                 "rs:float64-floor" if eps < 2e-8 and isinstance(e, (ValueError, ZeroDivisionError)) else f"rs:raises:{type(e).__name__}")
             return
         # gate set / structure
         ctx.ev("rs.gateset")
